@@ -37,6 +37,7 @@ N_SUBSETS = 5
 
 def prepare():
     base.prepare_common()
+    base.monitoring()
 
 
 def draw_cfg(st):
